@@ -1326,7 +1326,8 @@ fn legit_peer(at: &str, peer: &AddrSpec, klen: u32) -> bool {
             } else if let Some(n) = a.as_abstract_name() {
                 klen == 3 + n.len() as u32
             } else {
-                klen == 2
+                // getsockname & co report 2, recvmsg reports 0 for an unbound sender
+                klen == 2 || klen == 0
             }
         }
         ("none", _) => klen == 0,
@@ -3571,7 +3572,7 @@ fn g_peer(rng: &mut Rng, allow_none: bool) -> (String, String, u32) {
             }
         }
         "unix" => match rng.below(4) {
-            0 => ("unnamed".to_string(), 2),
+            0 => ("unnamed".to_string(), if rng.chance(1, 2) { 2 } else { 0 }),
             1 => {
                 let n = rng.range(0, 30);
                 (format!("abstract:{}", g_hexname(rng, n, n, true)), 3 + n as u32)
